@@ -65,6 +65,9 @@ def cases(ctx):
         ("escaped.suffix", [("a", U)], "{'value.equal_to': {'\\\\path.length': [a]}}"),
         ("escaped.in_list", [("a", U)], "{'value.in': [{'\\\\path': [a]}, 1]}"),
         ("escaped.in_kw", [("a", U)], "{'value.items_contain': {'k': {'\\\\path': [a]}}}"),
+        ("path.in_kwlist", [("s", "str"), ("n", "int")], "{'value.keys_contain_N_of': {'N': n, 'keys': ['a', {'path': [s]}]}}"),
+        ("escaped.in_kwlist", [("a", U), ("n", "int")], "{'value.keys_contain_at_least_N_of': {'N': n, 'keys': ['a', {'\\\\path': [a]}]}}"),
+        ("escaped.in_list_in_map", [("a", U)], "{'value.equal_to': {'k': [{'\\\\path': [a]}, 1], 'j': 0}}"),
         ("literal_map", [("a", U)], "{'value.equal_to': {'k': a, 'j': {'x': [a]}}}"),
     ]
     for cid, extra, spec, *more in cond_specs:
